@@ -58,6 +58,16 @@ CHECKS = {
         "technique": SIM + "interval oracles on the query trace against ModelCache, hours of virtual time per run",
         "design_ref": "DESIGN.md §5 C10",
     },
+    "C15": {
+        "text": "Seeded search over hostile datagram streams (random bytes, mutated captures of the run's own traffic, "
+                "grammar-generated compression-pointer chains/cycles, oversize, invalid UTF-8, TC poisoning; mDNS and "
+                "legacy source ports) interleaved with honest traffic of two real instances and in-flight corruption; "
+                "oracle: nothing reaches any event-loop exception handler, oversized datagrams have no effect, and after "
+                "the faults stop canary queries (also from the attacker's address) and a canary announcement are served "
+                "within bounded time. Two escaping exceptions were found this way and repaired.",
+        "technique": SIM + "fault injection of garbage/corruption into a live instance, loop-exception and bounded-liveness oracles",
+        "design_ref": "DESIGN.md §5 C15",
+    },
     "C05": {
         "text": "Seeded search over response-datagram histories (repeats, refreshes, goodbyes, cache-flush, re-cased names) "
                 "and clock steps around the 1 s flush window, TTL expiry and the 10 s purge, driven through the real "
